@@ -210,13 +210,16 @@ ADD4 = {
  "C17": " Round 4: WR-ENCDICT.",
 }
 ADD5 = {
- "C03": " Round 5: WR-READFROM.",
+ "C03": " Round 5: WR-READFROM, SIB-REOPEN-STATE.",
+ "C06": " Round 5: CE-RING-ACCOUNT, TM-ENCAVAIL.",
+ "C15": " Round 5: CE-DICT-ENC (lib).",
+ "C18": " Round 5: reader-side filter property obligations.",
  "C04": " Round 5: SEQ-BLOCKEND.",
  "C05": " Round 5: SEQ-BLOCKEND, WR-READFROM.",
  "C13": " Round 5: SEQ-BLOCKEND, WR-READFROM.",
  "C14": " Round 5: GL-GLOBAL no longer skips methods named init.",
  "C16": " Round 5: EF-EOF over the LZMA2 reader, decoder dictionary window guards, WR-READFROM; TM-OPMARGIN; WR-RAWCOPY.",
- "C01": " TM-OPMARGIN (opLenMargin covers the largest operation plus closing the range coder; found and fixed a defect, DESIGN 12.6); WR-RAWCOPY (raw chunk only while the encoder dictionary holds it; defect fixed, DESIGN 12.7).",
+ "C01": " Round 5: SIB-REOPEN-STATE, CE-RING-ACCOUNT, TM-ENCAVAIL, CE-CHUNKHDR. TM-OPMARGIN (opLenMargin covers the largest operation plus closing the range coder; found and fixed a defect, DESIGN 12.6); WR-RAWCOPY (raw chunk only while the encoder dictionary holds it; defect fixed, DESIGN 12.7).",
  "C08": " TM-OPMARGIN (opLenMargin covers the largest operation plus closing the range coder; found and fixed a defect, DESIGN 12.6); WR-RAWCOPY (raw chunk only while the encoder dictionary holds it; defect fixed, DESIGN 12.7).",
 }
 for pid, text in ADD5.items():
